@@ -405,6 +405,7 @@ def rule_args(ctx):
     """R1 (argument routing): across the workspace no two same-typed, named arguments are passed in each other's positions"""
     from . import _argswap as AS
     n = AS.swapped_arguments(ctx, ctx.program, "R1", ("huginn_net_tcp", "huginn_net_http", "huginn_net_tls", "huginn_net", "huginn_net_db"))
+    AS.swapped_fields(ctx, ctx.program, "R1", ("huginn_net_tcp", "huginn_net_http", "huginn_net_tls", "huginn_net"))
     ctx.floor("R1", "calls to workspace functions with named parameters", n, 300)
 
 
@@ -462,7 +463,56 @@ def rule_twins(ctx):
     TW.twin_agreement(ctx, ctx.program, "R1", ("huginn_net_tcp", "huginn_net_http", "huginn_net_tls", "huginn_net"))
 
 
+def rule_signature_untouched(ctx):
+    """R1: the signature a result carries (`sig`) is the value the analysis produced: between its production and the result's construction
+    nothing borrows it mutably or assigns to its parts (a field moved out with `take()` / `mem::take` leaves the stand-alone result's
+    signature different from the unified one for the same packet)"""
+    P = ctx.program
+    n, bad = 0, []
+    for b in sorted(P.bodies.values(), key=lambda x: x.path):
+        if b.crate not in ("huginn_net", "huginn_net_http", "huginn_net_tcp", "huginn_net_tls"):
+            continue
+        for i, j, st in b.iter_stmts():
+            r = st.get("r") or {}
+            if st["k"] != "assign" or r.get("k") != "agg" or "sig" not in (r.get("fields") or []) or not r.get("path", "").split("::")[-1].endswith("Output"):
+                continue
+            o = r["ops"][r["fields"].index("sig")]
+            pl = o.get("m") or o.get("c")
+            if not isinstance(pl, dict) or "l" not in pl:
+                continue
+            root = pl["l"]
+            for _ in range(8):
+                ds = [s2 for (_, _, s2) in b.iter_stmts() if s2["k"] == "assign" and s2["p"]["l"] == root and not s2["p"]["pr"]]
+                if len(ds) == 1 and ds[0]["r"]["k"] == "use" and not b.local_name(root):
+                    p2 = ds[0]["r"]["o"].get("m") or ds[0]["r"]["o"].get("c")
+                    if isinstance(p2, dict) and "l" in p2 and not p2["pr"]:
+                        root = p2["l"]
+                        continue
+                break
+            n += 1
+            for i2, j2, s2 in b.iter_stmts():
+                if s2["k"] != "assign":
+                    continue
+                r2 = s2["r"]
+                if r2["k"] == "ref" and r2.get("bk") == "mut" and r2["p"]["l"] == root:
+                    bad.append((b, i2, r.get("path", "").split("::")[-1]))
+                elif s2["p"]["l"] == root and s2["p"]["pr"]:
+                    bad.append((b, i2, r.get("path", "").split("::")[-1]))
+    seen = set()
+    for (b, blk, what) in bad:
+        key = "%s:%s:%s:sig-untouched" % (b.crate, b.name, what)
+        if key in seen:
+            continue
+        seen.add(key)
+        ctx.fail("R1", key, "%s modifies the signature it then reports in %s.sig: the reported signature is no longer what the analysis produced, and "
+                 "differs from what the other analyzer reports for the same packet" % (b.name, what), ctx.loc(b, blk))
+    if not bad:
+        ctx.ok("R1", "sig-untouched", "%d result constructions, none preceded by a mutable borrow of / assignment into the reported signature" % n)
+    ctx.floor("R1", "result constructions carrying a signature", n, 8)
+
+
 def run(ctx):
+    rule_signature_untouched(ctx)
     rule_diagnosis(ctx)
     rule_twins(ctx)
     rule_table_routing(ctx)
